@@ -82,6 +82,8 @@ def cases(shard):
     elif alg == "bv":
         for s in range(shard["lo"], shard["hi"]):
             forms = ["secret_oracle", "dot"] if n > 1 else ["dot"]
+            if n == 4:
+                forms.append("dot_nested")
             for f in forms:
                 yield {"alg": "bv", "n": n, "s": s, "form": f, "key": "bv n=%d secret=%d form=%s" % (n, s, f)}
     else:
@@ -106,6 +108,10 @@ def outcome_string(y, n):
 
 
 def value_ok(v, y, n, kind):
+    if kind == "nested":
+        b = [(y >> i) & 1 for i in range(4)]
+        return (isinstance(v, tuple) and len(v) == 2 and isinstance(v[0], tuple) and len(v[0]) == 2 and v[0][0] is bool(b[0])
+                and int(v[0][1]) == b[1] + 2 * b[2] and v[1] is bool(b[3]))
     if kind == "int" and n > 1:
         return isinstance(v, int) and not isinstance(v, bool) and int(v) == y
     if kind == "int":
@@ -143,6 +149,14 @@ def run_case(case):
             if case["form"] == "secret_oracle":
                 qf = secret_oracle(n, s)
                 src = "secret_oracle(%d, %d)" % (n, s)
+            elif case["form"] == "dot_nested":
+                # argument Tuple[Tuple[bool, Qint[2]], bool]: bits x[0][0], x[0][1][0], x[0][1][1], x[1]
+                kind = "nested"
+                names4 = ["x[0][0]", "x[0][1][0]", "x[0][1][1]", "x[1]"]
+                terms = [names4[i] for i in range(4) if (s >> i) & 1]
+                body = " ^ ".join(terms) if terms else "False"
+                src = "def tfun(x: Tuple[Tuple[bool, Qint[2]], bool]) -> bool:\n    return %s\n" % body
+                qf = H.compile_src(src, "default", True)
             else:
                 terms = [bit("x", i, n, "int") for i in range(n) if (s >> i) & 1]
                 body = " ^ ".join(terms) if terms else "False"
@@ -156,6 +170,8 @@ def run_case(case):
                 return {"status": "skipped", "rows": 0, "nontrivial": False, "outcome": "form-does-not-denote-f"}
             a = BernsteinVazirani(qf)
             sig = "def tfun(x: %s) -> bool:\n    return %s\n" % (argtype(n, "int"), bit("x", 0, n, "int"))
+            if kind == "nested":
+                sig = "def tfun(x: Tuple[Tuple[bool, Qint[2]], bool]) -> bool:\n    return x[1]\n"
             ra = BernsteinVazirani(ideal.ideal_qlassf(sig, [((col >> r) & 1,) for r in range(N)]))
             expect = [1.0 if y == s else 0.0 for y in range(N)]
         else:
@@ -208,6 +224,27 @@ def run_case(case):
         bad.append({"why": p, "attribution": "algorithm wrapper"})
     for p in p_comp:
         bad.append({"why": p, "attribution": "algorithm wrapper" if p_ideal else "compiled black box (C02/C03/C06)"})
+    # decode_counts on counts taken over ALL qubits (each logical outcome split over several raw strings), with a discard threshold that
+    # the aggregated outcome passes but the raw strings do not
+    try:
+        nq_all = a.circuit().num_qubits
+        if nq_all > n:
+            counts = {}
+            for y in range(N):
+                if dist[y] > 1e-12:
+                    for hi in (0, 1):
+                        counts[("1" if hi else "0") * 1 + "0" * (nq_all - n - 1) + outcome_string(y, n)] = 40
+            want_counts = {}
+            for y in range(N):
+                if dist[y] > 1e-12:
+                    kdec = a.decode_output(outcome_string(y, n))
+                    want_counts[kdec] = want_counts.get(kdec, 0) + 80
+            got_counts = a.decode_counts(counts, discard_lower=60)
+            if got_counts != want_counts:
+                bad.append({"why": "decode_counts(discard_lower=60) on full-register counts of 40+40 shots per outcome gives %r, expected %r" % (
+                    dict(list(got_counts.items())[:4]), dict(list(want_counts.items())[:4]))})
+    except Exception as e:
+        bad.append({"why": "decode_counts raised %s: %s" % (H.exc_name(e), str(e)[:80])})
     # decoding of every outcome that can be measured
     for y in range(N):
         if dist[y] <= 1e-12 and not (expect is not None and expect[y] > 0):
